@@ -33,6 +33,19 @@ CUSTOM_THEME = ((10, 20, 30), (200, 210, 220), [(i * 30, 255 - i * 30, i * 7) fo
 
 
 # ------------------------------------------------------------------ building real objects from descriptors
+def S(st):
+    """Style descriptor -> what is handed to rich: a style definition string, or a Style that `Style.parse` cannot express."""
+    if st == "@emptylink":
+        from rich.style import Style
+
+        return Style(bold=True, link="")
+    return st
+
+
+def kwargs_of(kw):
+    return {k: (S(v) if k == "style" else v) for k, v in kw.items()}
+
+
 def build(r):
     from rich.control import Control
     from rich.padding import Padding
@@ -45,9 +58,9 @@ def build(r):
     if k == "s":
         return r[1]
     if k == "t":
-        t = Text(r[1], style=r[2] or "", justify=r[4] if len(r) > 4 else None)
+        t = Text(r[1], style=S(r[2]) or "", justify=r[4] if len(r) > 4 else None)
         for a, b, st in r[3]:
-            t.stylize(st, a, b)
+            t.stylize(S(st), a, b)
         return t
     if k == "ctl":
         return Control(r[1])
@@ -56,7 +69,7 @@ def build(r):
     if k == "pad":
         return Padding(build(r[1]), r[2], style=r[3] or "none")
     if k == "styled":
-        return Styled(build(r[1]), r[2])
+        return Styled(build(r[1]), S(r[2]))
     if k == "table":
         t = Table(*r[1], show_header=r[3], style=r[4] or "none")
         for row in r[2]:
@@ -112,13 +125,13 @@ def _log(c, objs, kw):
 def apply(c, op, theme):
     k = op[0]
     if k == "print":
-        return c.print(*[build(r) for r in op[1]], **op[2])
+        return c.print(*[build(r) for r in op[1]], **kwargs_of(op[2]))
     if k == "log":
-        return _log(c, [build(r) for r in op[1]], op[2])
+        return _log(c, [build(r) for r in op[1]], kwargs_of(op[2]))
     if k == "rule":
-        return c.rule(build(op[1]), **op[2])
+        return c.rule(build(op[1]), **kwargs_of(op[2]))
     if k == "out":
-        return c.out(*op[1], **op[2])
+        return c.out(*op[1], **kwargs_of(op[2]))
     if k == "print0":
         return c.print()
     if k == "log0":
@@ -263,7 +276,11 @@ CLOSING = [("text", False, False), ("text", False, True), ("html", False, True, 
 
 
 # ------------------------------------------------------------------ one history: run, evaluate the property, queue the correspondence
+STATS = {"raised": 0, "histories": 0}
+
+
 def eval_history(ctx, cfg, ops, tag):
+    STATS["histories"] += 1
     from rich.color import ColorSystem
     from rich.console import COLOR_SYSTEMS
     from rich.terminal_theme import TerminalTheme
@@ -279,7 +296,9 @@ def eval_history(ctx, cfg, ops, tag):
     desc = {"config": cfg, "ops": ops}
 
     since = []  # since the last clearing export: ("w", text written to the file) / ("c", text returned by a capture)
-    caps = []  # open capture blocks: {"ops": [...], "writes": n}
+    caps = []  # open capture blocks
+    pending = []  # operations inside open capture blocks since the latest end_capture
+    unbalanced = False  # an end_capture without begin_capture happened: the capture statements are not evaluated any more
     last_plain = None  # (index of op, result) of the latest plain non-clearing export
     colour_on = cfg["color_system"] is not None and not (cfg["no_color"] if cfg["no_color"] is not None else "NO_COLOR" in cfg["environ"])
 
@@ -296,7 +315,11 @@ def eval_history(ctx, cfg, ops, tag):
             if k not in EXPORTS or cfg["record"]:
                 ctx.check(False, k, desc, f"operation {i} {op!r} raised AssertionError")
                 return
-        except Exception as e:  # the property's operations are total on this domain
+        except Exception as e:
+            if k in PRINTLIKE:  # rendering raised: that is C14's subject; the history is dropped (and counted)
+                ctx.note("render_raised:" + type(e).__name__)
+                STATS["raised"] += 1
+                return
             ctx.check(False, k, desc, f"operation {i} {op!r} raised {type(e).__name__}: {e}")
             return
         segs = spy.take()
@@ -307,25 +330,48 @@ def eval_history(ctx, cfg, ops, tag):
         outs.append("A" if err else "-" if res is None else ("c" if k == "end" else "e") + enc_str(canon(res)))
 
         # ---- direct evaluation of the property on what rich did
-        if caps:
+        if k == "end" and not caps:
+            unbalanced = True
+            ctx.note("unbalanced_end")
+        if caps and not unbalanced:
             ctx.check(not new_writes, "capture", desc, f"op {i} {op!r} inside a capture block wrote {new_writes!r} to the file")
         if any(w == "" for w in new_writes):
             ctx.check(False, "file.write", desc, "an empty string was written")
         since.extend(("w", w) for w in new_writes)
         if k == "begin":
-            caps.append({"ops": []})
+            caps.append({"ops": [], "all": [], "inner": []})
         elif k == "end":
-            if caps:
+            if caps and unbalanced:
+                caps.pop()
+            elif caps:
                 blk = caps.pop()
-                twin, tf, _ = make_console(cfg, record=False)
-                for o in blk["ops"]:
-                    apply(twin, o, theme)
-                want = "".join(tf.writes)
-                ctx.check(canon(res) == canon(want), "capture", desc, f"capture ending at op {i} returned {res!r}; the same operations outside a capture write {want!r}")
-                ctx.note("capture:" + ("empty" if not want else "nonempty"))
+
+                def twin_output(block_ops):
+                    twin, tf, _ = make_console(cfg, record=False)
+                    for o in block_ops:
+                        apply(twin, o, theme)
+                    return "".join(tf.writes)
+
+                want = twin_output(blk["ops"])
+                ok = canon(res) == canon(want)
+                finding = None
+                if not ok and (blk["inner"] or caps):
+                    # narrow classifier: a block that is nested, or has nested blocks.  `end_capture` returns the
+                    # whole thread buffer - everything printed since the previous end_capture, whichever block it
+                    # was printed in - instead of what was printed inside this block.
+                    if canon(res) == canon(twin_output(pending)):
+                        finding = "nested-capture-steals"
+                ctx.check(ok, "capture", desc, f"capture ending at op {i} returned {res!r}; the operations directly inside it, run outside a capture, write {want!r}", finding=finding)
+                ctx.note("capture:" + ("nested" if blk["inner"] else "empty" if not want else "nonempty"))
+                if caps:
+                    caps[-1]["all"] += blk["all"]
+                    caps[-1]["inner"] += blk["inner"] + [res]
             since.append(("c", res))
+            pending = []
         elif k not in EXPORTS and caps:
             caps[-1]["ops"].append(op)
+            caps[-1]["all"].append(op)
+            pending.append(op)
         if err:
             continue
         if k == "text" and not op[2]:
@@ -480,7 +526,7 @@ def small_histories(maxlen):
 
 
 WORDS = ["a", "b<c", "d&e", "f>g", "&amp;", "&lt;x&gt;", "<b>", "</span>", "あい", "x y", "1 + 2", "'q'", '"z"', "&", "<", ">", "&#38;", "long word here", "é", "]]>", "{code}", "{", "}}", "\t", "http://u.v/w"]
-STYLES = ["bold", "italic", "red", "bold red on blue", "not bold", "none", "dim", "reverse", "#ff0000", "color(5)", "underline on white", "strike", "overline green", "blink", "default on default"]
+STYLES = ["@emptylink", "bold", "italic", "red", "bold red on blue", "not bold", "none", "dim", "reverse", "#ff0000", "color(5)", "underline on white", "strike", "overline green", "blink", "default on default"]
 LINKS = ["http://e.x/", "http://e.x/?a=1&b=2", "https://e.x/p#f", "mailto:a@b.c", "x"]
 BAD_LINKS = ['http://e.x/"q', "http://e.x/<b>", "a>b", "http://e.x/?a=1&lt;=2", "it's"]
 
@@ -488,6 +534,8 @@ BAD_LINKS = ['http://e.x/"q', "http://e.x/<b>", "a>b", "http://e.x/?a=1&lt;=2", 
 def gen_style(rng, bad_links):
     r = rng.random()
     st = rng.choice(STYLES)
+    if st == "@emptylink":
+        return st
     if r < 0.25:
         pool = LINKS + (BAD_LINKS if bad_links else [])
         st = (st + " " if rng.random() < 0.5 and st != "none" else "") + "link " + rng.choice(pool)
@@ -515,7 +563,7 @@ def gen_markup(rng, bad_links):
         w = rng.choice(WORDS).replace("[", "").replace("]", ")")
         r = rng.random()
         if r < 0.35:
-            parts.append(f"[{rng.choice(STYLES)}]{w}[/]")
+            parts.append(f"[{rng.choice(STYLES[1:])}]{w}[/]")
         elif r < 0.5:
             parts.append(f"[link={rng.choice(LINKS + (BAD_LINKS[:3] if bad_links else []))}]{w}[/link]")
         else:
@@ -609,7 +657,8 @@ def gen_op(rng, depth, bad_links, record):
         return ("end",) if depth > 0 else ("begin",)
     if r < 0.93:
         return ("text", rng.random() < 0.4, rng.random() < 0.4)
-    return ("html", rng.random() < 0.4, rng.random() < 0.5, rng.choice([None, None, CUSTOM_FMT, "{code}", "<pre>{code}</pre><style>{stylesheet}</style>{background}{foreground}"]))
+    fmt = rng.choice([None, None, CUSTOM_FMT, "{code}", "<pre>{code}</pre><style>{stylesheet}</style>{background}{foreground}"])
+    return ("html", rng.random() < 0.4, True if fmt == "{code}" else rng.random() < 0.5, fmt)
 
 
 def gen_config(rng):
@@ -629,7 +678,7 @@ def gen_config(rng):
         legacy_windows=rng.random() < 0.12,
         environ=env,
         record=True,
-        log_time=rng.random() < 0.3,
+        log_time=False,  # LogRender omits a repeated time: with it on, what log() renders depends on earlier logs (twin oracle)
         theme=rng.random() < 0.25,
     )
 
@@ -653,6 +702,7 @@ def gen_history(rng, n, bad_links, balanced=True):
 
 def run(ctx):
     rng = ctx.rng
+    STATS.update(raised=0, histories=0)
     ctx.assumptions += [
         "styles are opaque to the console model: style.render(text) = pre ++ text ++ post, bool(style), without_color, "
         "get_html_style(theme) and link are parameters read off the real Style objects for every case (their meaning is C03/C06's subject)",
@@ -702,9 +752,11 @@ def run(ctx):
         if r > 0.5:
             ops.insert(rng.randint(0, len(ops)), ("end",))
         if rng.random() < 0.3:
-            ops.insert(rng.randint(0, len(ops)), ("print", [("t", "e", None, [(0, 1, "bold")])], {"style": "link "}))
+            ops.insert(rng.randint(0, len(ops)), ("print", [("t", "e", None, [(0, 1, "bold")])], {"style": "@emptylink"}))
         eval_history(ctx, cfg, ops, "malformed")
     ctx.flush()
+
+    ctx.check(STATS["raised"] * 50 <= STATS["histories"], "print", dict(STATS), "more than 2% of the generated histories were dropped because rendering raised")
 
     # ---- 5. escape on every string <= 4 over the characters it branches on
     alpha = ["&", "<", ">", "a", ";", '"', "'"]
